@@ -425,7 +425,7 @@ def handle (st : St) (j : Json) : D (St × Json) := do
     | "inside" =>
       let a ← nat (← field j "a")
       let b ← nat (← field j "b")
-      return (st, ok (Json.arr (steps.map (fun s => Json.bool (insideNode a b s))).toArray))
+      return (st, ok (Json.arr (steps.map (fun s => Json.bool (isoSafe a b s))).toArray))
     | _ => throw "bad monitor kind"
   | "toks" =>
     let d ← node (← field j "doc")
